@@ -30,8 +30,9 @@ import (
 )
 
 type Req struct {
-	Mid int    `json:"mid"` // offset relative to the connection's own next message ID at start (Own0 in the model = 10)
-	Typ string `json:"typ"`
+	Mid  int    `json:"mid"` // offset relative to the connection's own next message ID at start (Own0 in the model = 10)
+	Typ  string `json:"typ"`
+	Code int    `json:"code"` // request method (0: GET)
 }
 
 type Act struct {
@@ -211,7 +212,11 @@ func runOne(st Stim) Trace {
 			if r.Typ == "NON" {
 				typ = message.NonConfirmable
 			}
-			raw := memnet.Build(typ, int(codes.GET), int32(uint16(w.base+r.Mid)), []byte{0xC0, byte(a.Q), byte(copies), byte(a.G)},
+			code := int(codes.GET)
+			if r.Code != 0 { // (the method: also the RFC 8132 ones - FETCH 5, PATCH 6, iPATCH 7 - which the library hands to the handler like any request)
+				code = r.Code
+			}
+			raw := memnet.Build(typ, code, int32(uint16(w.base+r.Mid)), []byte{0xC0, byte(a.Q), byte(copies), byte(a.G)},
 				message.Options{{ID: message.URIPath, Value: []byte("a")}}, nil)
 			w.mu.Lock()
 			w.busy[a.G] = true
